@@ -307,6 +307,12 @@ func (vc *FnVC) applyContract(st *State, u *Unit, callee *ssa.Function, pkg *typ
 	if u.HasMod || u.Trusted || u.Pure {
 		if u.ModInferred && callee != nil {
 			ws, all := vc.G.fnWrites(callee, vc.rootPkg())
+			if u.Trusted && c != nil {
+				// library function with a trusted contract: the inferred part is specialised to this call site
+				if sw, sall := vc.G.callWrites(vc.fn, c); true {
+					ws, all = sw, sall
+				}
+			}
 			if all {
 				vc.note("call to %s: unknown effects, whole heap havocked", short)
 			}
